@@ -136,7 +136,7 @@ def harness(name, flav, sources, extra_cflags=(), extra_ldflags=(), wraps=(), in
     h = hashlib.sha256()
     h.update(open(os.path.join(os.path.dirname(lib), "stamp")).read().encode())
     h.update(repr((flav, list(extra_cflags), list(extra_ldflags), list(wraps), instrument)).encode())
-    deps = list(srcs) + list(psrcs) + [os.path.join(hdir, f) for f in sorted(os.listdir(hdir)) if f.endswith(".h")]
+    deps = list(srcs) + list(psrcs) + [os.path.join(hdir, f) for f in sorted(os.listdir(hdir)) if f.endswith((".h", ".inc"))]
     for s in deps:
         with open(s, "rb") as f:
             h.update(s.encode())
